@@ -96,7 +96,7 @@ from common import impl_error
 from props import hytera_tables as HT
 
 PROP = "C12"
-MODULES = ["C12", "C12a", "C12b", "C12c", "C12d"]
+MODULES = ["C12", "C12a", "C12b", "C12c", "C12d", "C12p"]
 GEN = ["Hytera"]
 
 TESTS = os.path.join(os.environ.get("VERIF_REPO") or "/repo", "okdmr/tests/dmrlib/hytera")
